@@ -20,7 +20,7 @@ from embit.descriptor import Descriptor
 from embit.descriptor.miniscript import Miniscript
 
 PROP = "C13"
-MODS = ["EmbitModel.Props.C13", "EmbitModel.Props.C13X"]
+MODS = ["EmbitModel.Props.C13", "EmbitModel.Props.C13X", "EmbitModel.Props.C13Y"]
 
 
 class Timeout(Exception):
